@@ -5,7 +5,8 @@ from common import Check, assert_repo_import, eval_cases, eval_one, canon_tree, 
 import lang_common as LC
 import progen
 
-IMPORTS = "Base Token TokEngine Lex Headers Blocks Pairing Fold ScanFile Spec HeaderSpec SpecCheck LexShapes SpecCheckAll PySpec PySpecCheck PyLexical Grammar GrammarAll GrammarParse"
+IMPORTS = "Base Token TokEngine Lex Headers Blocks Pairing Fold ScanFile Spec HeaderSpec SpecCheck LexShapes SpecCheckAll PySpec PySpecCheck PyLexical Grammar GrammarAll GrammarParse PyGrammar PyGrammarParse"
+PY = LC.LANGS.index("Python")
 LEXICAL = ("C", "Cpp", "CSharp", "Java", "JavaScript", "TypeScript")   # brace languages: Scope/HeaderSpec.v, LexShapes.v
 
 
@@ -98,6 +99,10 @@ def grammar_exprs(li, toklit):
     """(membership, derivation): whether Coq's recogniser of the formal grammar (Scope/GrammarParse.v, proved sound)
     accepts the program, and the measurements the unconditional theorem C01_grammar_brace then prescribes"""
     code = f"filter_tokens false {toklit}"
+    if li == PY:
+        return (f"(enc_bool (match py_parse_program ({code}) with Some _ => true | None => false end))",
+                f"(let code := {code} in match py_parse_program code with "
+                "Some ds => enc_scan (py_expected_all code ds ds) | None => T [] end)")
     return (f"(enc_bool (match parse_program (lang_code {li}) ({code}) with Some _ => true | None => false end))",
             f"(let code := {code} in match parse_program (lang_code {li}) code with "
             "Some ds => enc_scan (expected_all code ds ds) | None => T [] end)")
@@ -148,7 +153,7 @@ def _work(args):
 def run(tier, seed, replay=None):
     assert_repo_import()
     chk = Check("C01", tier, seed)
-    model_ok = chk.proof_stage(["Scope/ScanFile.vo", "Scope/SpecProofs.vo", "Scope/SpecCheck.vo", "Scope/HeaderProofs.vo", "Scope/ShapeProofs.vo", "Scope/SpecCheckAll.vo", "Scope/PyLexical.vo", "Scope/TieProofs.vo", "Scope/GrammarProofs.vo", "Scope/GrammarAllProofs.vo", "Scope/PyGrammarProofs.vo", "Scope/GrammarParseProofs.vo"])
+    model_ok = chk.proof_stage(["Scope/ScanFile.vo", "Scope/SpecProofs.vo", "Scope/SpecCheck.vo", "Scope/HeaderProofs.vo", "Scope/ShapeProofs.vo", "Scope/SpecCheckAll.vo", "Scope/PyLexical.vo", "Scope/TieProofs.vo", "Scope/GrammarProofs.vo", "Scope/GrammarAllProofs.vo", "Scope/PyGrammarProofs.vo", "Scope/GrammarParseProofs.vo", "Scope/PyGrammarParseProofs.vo"])
     n_prog = 400 if tier == "quick" else 12000
     base = seed * 1000003
     jobs = []
@@ -186,7 +191,7 @@ def run(tier, seed, replay=None):
                         # the theorem's right-hand side against the generator's expectation
                         spec_cases.append(((py_spec_expr(toklit, ds) if lang == "Python" else spec_expr(li, toklit, ds)),
                                            [1, 1, [0, exp]], case))
-                    if lang in LEXICAL:
+                    if lang in LEXICAL or lang == "Python":
                         gram_cases.append((grammar_exprs(li, toklit), [0, exp], case))
     chk.samples = [c for _, _, c in model_cases[:3]]
     if model_ok:
@@ -213,8 +218,8 @@ def run(tier, seed, replay=None):
         if err:
             chk.broken.append("grammar recogniser evaluation failed: " + err[-400:])
         members = [i for i in range(len(gram_cases)) if i not in set(outside)]
-        chk.count("brace-language programs recognised in Coq as programs of the formal grammar (C01_grammar_brace applies unconditionally)", len(members))
-        chk.count("brace-language programs outside the formal grammar (lexical-hypothesis theorems apply)", len(outside))
+        chk.count("programs recognised in Coq as programs of the formal grammar (C01_grammar_brace / C01_grammar_python apply unconditionally)", len(members))
+        chk.count("programs outside the formal grammars (lexical-hypothesis theorems apply)", len(outside))
         mism, err = eval_cases("C01h", IMPORTS, [(gram_cases[i][0][1], gram_cases[i][1]) for i in members], shard=8)
         if err:
             chk.broken.append("grammar derivation evaluation failed: " + err[-400:])
